@@ -130,6 +130,8 @@ def c_op_lines(lib, op):
             args.append("&" + co(op["objs"][nm]))
         elif p.get("implied_of"):
             args.append("%d" % len(ins[p["implied_of"]]))     # the C API shows implied arguments
+        elif row == "N1" and p.get("enum"):
+            args.append(PREFIX + xlib.enum_member(ins[nm], idx))    # the generated enumerator, as a caller writes it
         elif p.get("size_for") or row in ("N1", "B1", "S1c"):
             args.append(xlib.c_lit(T, ins[nm]))
         elif row == "N2in":
@@ -305,6 +307,8 @@ def f_op_lines(lib, op):
             args.append(v)
             post.append("call vf_oai(%d, %d, int(shape(%s), C_LONG_LONG))" % (idx, p["rank"], v))
             post.append(obs_arr_f(T, idx, v))
+        elif row == "N1" and p.get("enum"):
+            args.append(xlib.enum_member(ins[nm], idx).lower())     # the generated parameter, as a caller writes it
         elif p.get("size_for") or row in ("N1", "N2in", "B1"):
             args.append(f_lit(T, ins[nm]))
         elif row == "S1c":
